@@ -1,6 +1,7 @@
 """C08 - validation outcomes do not depend on what the CID was used for before."""
 import io
 import itertools
+import os
 
 from hypothesis import strategies as st
 
@@ -166,14 +167,39 @@ def _validate(cid, rows, until):
         return {"ended": _describe(error)}
 
 
-def _write(cid, rows, close, held=None, late_close_after=None, objects=None):
+_WORKER = []
+
+
+def _in_worker(function):
+    """Run ``function`` in the one worker thread of this process (created on first use, then used again and again,
+    as the worker of a thread pool is)."""
+    import concurrent.futures
+
+    if not _WORKER or _WORKER[0][0] != os.getpid():
+        _WORKER[:] = [(os.getpid(), concurrent.futures.ThreadPoolExecutor(max_workers=1))]
+    return _WORKER[0][1].submit(function).result()
+
+
+def _write(cid, rows, close, held=None, late_close_after=None, objects=None, worker=False):
+    if worker:
+        # the writer is set up here, the rows are written (and the writer is closed) by the worker thread
+        target = io.StringIO()
+        try:
+            writer = cutplace.Writer(cid, target)
+        except Exception as error:
+            return {"items": [], "ended": ["construct"] + _describe(error), "text": ""}
+        return _in_worker(lambda: _write_with(writer, target, rows, close, held, late_close_after, objects))
     target = io.StringIO()
-    out = []
-    ended = None
     try:
         writer = cutplace.Writer(cid, target)
     except Exception as error:
         return {"items": [], "ended": ["construct"] + _describe(error), "text": ""}
+    return _write_with(writer, target, rows, close, held, late_close_after, objects)
+
+
+def _write_with(writer, target, rows, close, held, late_close_after, objects):
+    out = []
+    ended = None
     objects = objects if objects is not None else (_DELIVERED.get(_text(rows)) or [])
     for index, row in enumerate(rows):
         if late_close_after is not None and len(out) == late_close_after:
@@ -210,6 +236,8 @@ OPS = {
     "write-noclose": lambda cid, held: _write(cid, THREE, False),
     "write-close": lambda cid, held: _write(cid, CLEAN, True),
     "write-dup": lambda cid, held: _write(cid, DUP, True),
+    "write-close-worker": lambda cid, held: _write(cid, CLEAN, True, worker=True),
+    "write-three-worker": lambda cid, held: _write(cid, THREE, True, worker=True),
     # an earlier abandoned / never closed run is finalized (garbage collected, closed) in the middle of this run
     "lateclose-read-dup": lambda cid, held: _read(cid, DUP, held=held, late_close_after=2),
     # the rows of a data set are requested, another complete run happens, only then are they consumed
@@ -402,6 +430,7 @@ def generated_cases(draw):
             op["until"] = draw(st.sampled_from([None, 0, 2]))
         elif kind == "write":
             op["close"] = draw(st.booleans())
+            op["worker"] = draw(st.sampled_from([False, False, True]))
         ops.append(op)
     return {"spec": spec, "tables": tables, "ops": ops}
 
@@ -419,7 +448,7 @@ def _generated_op(cid, spec, tables, op, held):
     if kind == "write":
         # the rows an earlier complete reading of this table delivered are handed to the writer as the objects they are
         return _write(cid, rows[spec["fmt"].get("header", 0):], op["close"],
-                      objects=delivered_before.get(op["table"], []))
+                      objects=delivered_before.get(op["table"], []), worker=bool(op.get("worker")))
     source = _stream(_generated_text(spec, rows, op["end"]))
     if kind == "validate":
         try:
